@@ -83,6 +83,9 @@ def rich_lines(rng, tag, fmt, nlines=None):
         if fmt in ('dfxp', 'sami') and k == 0 and rng.random() < 0.12:
             segs.insert(0, ['lead', rng.choice(['\n    ', '\n    \n    ', '\r\n\t', '\n  \t \n      '])])
         lines.append(segs)
+    if fmt == 'webvtt' and len(lines) >= 2 and rng.random() < 0.12:
+        # a line of blanks only is not the empty line that ends a cue
+        lines.insert(rng.randrange(1, len(lines)), [['t', rng.choice([' ', '  ', '\t', '\u00a0', '\u3000 '])]])
     return lines
 
 
@@ -104,6 +107,9 @@ def display(line, fmt):
 
 
 # ------------------------------------------------------------------------------- rendering
+
+from html.entities import codepoint2name as _HTML_NAMES   # noqa: E402
+
 
 def _ref(rng, ch, fmt, named):
     """One character spelled as a reference."""
@@ -155,6 +161,9 @@ def esc(s, fmt, rng):
             out += _ref(rng, ch, fmt, {})
         elif ch == '\u00a0' and fmt == 'sami' and rng.random() < 0.5:
             out += '&nbsp;'
+        elif fmt == 'sami' and ord(ch) in _HTML_NAMES and rng.random() < 0.4:
+            # HTML's named references are case-sensitive: &Eacute; is not &eacute;
+            out += '&%s;' % _HTML_NAMES[ord(ch)]
         else:
             out += ch
     return out
